@@ -91,8 +91,8 @@ def r2(ctx):
         for i, o in enumerate(outs):
             names = [e.name for e in o.effects]
             failed = any(d.text == "connect fails" and d.choice == 1 for d in o.decisions)
-            sp = names.count("_start_ping_thread")
-            ok = (sp == 0) if failed else (sp == 1 and names.index("appsock.connect") < names.index("_start_ping_thread") < names.index("dispatcher.read"))
+            sp = names.count("pingthread.start")
+            ok = (sp == 0) if failed else (sp == 1 and names.index("appsock.connect") < names.index("pingthread.start") < names.index("dispatcher.read"))
             if reconnecting:
                 shut = [j for j, n in enumerate(names) if n.endswith("oldsock.shutdown")]
                 ok = ok and len(shut) == 1 and shut[0] < names.index("WebSocket()")
@@ -101,7 +101,7 @@ def r2(ctx):
                    loc, {"path": path_text(o)})
     # no ping thread without an interval
     I, outs = setsock_paths(ctx, False, False, ping_interval=0)
-    ok = all("_start_ping_thread" not in [e.name for e in o.effects] for o in outs)
+    ok = all("pingthread.start" not in [e.name for e in o.effects] and "Thread" not in [e.name for e in o.effects] for o in outs)
     ctx.ob(f"{q}:no-interval-no-ping-thread", ok, "ping thread not started when ping_interval is 0", loc)
 
 
